@@ -2,7 +2,7 @@
 
 ENGINES = [
     {"name": "kani-cbmc", "path": "/verif/kani", "serves_properties": [],
-     "kind_free_text": "Kani 0.68 / CBMC 6.11 (CaDiCaL) bounded model checking of the real ast-grep-core / ast-grep-config crates (path deps on /repo, rebuilt each run) against a pure-Rust mock of the tree-sitter facade; driver tools/runner.py"},
+     "kind_free_text": "Kani 0.68 / CBMC 6.11 (CaDiCaL) bounded model checking of the real ast-grep-core / ast-grep-config / ast-grep-language (without its C grammars) crates (path deps on /repo, rebuilt each run) against a pure-Rust mock of the tree-sitter facade; driver tools/runner.py"},
 ]
 
 NOTES = ("Technique family: solver-based checking of the real code. Every verdict is bounded; bounds, stubs and assumptions are listed per "
@@ -14,12 +14,15 @@ TECH = "bounded model checking (Kani/CBMC, SAT) of the real crates compiled from
 
 CLAIMS = {
     "C01": {
-        "text": ("Claimed for one mechanism only -- the kind gate of composite matchers: the solver shows that the kind set cached by ops::All::new / ops::Any::new over three children "
+        "text": ("Claimed for two mechanisms. (a) The kind gate of composite matchers: the solver shows that the kind set cached by ops::All::new / ops::Any::new over three children "
                  "with arbitrary advertised kind sets (symbolic masks over kind ids 1..8, or no set) is exactly the intersection (set-less children skipped) / the union (a set-less child "
-                 "makes the result None) of the children's sets, so the node-kind dispatch of FindAllNodes / CombinedScan can never drop a node that every (some) child would accept."),
+                 "makes the result None) of the children's sets, so the node-kind dispatch of FindAllNodes / CombinedScan can never drop a node that every (some) child would accept. "
+                 "(b) The literal-substring file prefilter (core half): for every single-token pattern (symbolic kind incl. ERROR, named bit, text) at every strictness level and every candidate leaf, "
+                 "Pattern::match_node_with_env(X) is Some ==> X.text() contains Pattern::fixed_string(), i.e. the string the CLI requires a file to contain is never one the match does not need."),
         "note": ("NOT covered (engine limits, DESIGN 3; harnesses kept in the lab tier): FindAllNodes / overlap-free Visitor / replace_all drivers themselves (ANY(4): > 40 min of symbolic "
-                 "execution), Pattern / Rule / ReferentRule / NthChild potential_kinds, CombinedScan's dispatch table, registration order of utils, and everything in the cli crate "
-                 "(`sg run/scan` wiring, literal-substring file prefilter). Children are stub matchers; bit sets have fixed capacity 16."),
+                 "execution), Pattern / Rule / ReferentRule / NthChild potential_kinds, CombinedScan's dispatch table, registration order of utils, prefilter soundness for patterns with "
+                 "children (needs the sibling alignment; c01_prefilter_internal_k*: lab), and everything in the cli crate (`sg run/scan` wiring, the `contains` test of filter_file_pattern itself). "
+                 "Children are stub matchers; bit sets have fixed capacity 16."),
     },
     "C02": {
         "text": ("For flat sibling lists of k <= 3 children with symbolic kinds/texts the solver shows that the pattern cut from the list (named children replaced by distinct "
@@ -105,10 +108,14 @@ CLAIMS = {
                  "assumed for the sibling clauses (as the property states). tree-sitter's own cursor is replaced by the mock (contract in kani/mock-ts)."),
     },
     "C20": {
-        "text": ("For every string within the stated length/alphabet bounds the solver shows extract_meta_var agrees with the specification table of the property, parse_an_b "
-                 "with a reference reading of An+B, is_matched with `exists n >= 0: i = A*n+B`, and resolve_char with Python's slice index normalisation over the full i32 range."),
-        "note": ("Strings <= 5 (7 thorough) bytes over alphabets covering every character class the code distinguishes. Whether a spelling lexes as one token in each of the 23 "
-                 "grammars, and per-language expando pre-processing (language crate), are outside the claim."),
+        "text": ("For every string within the stated length/alphabet bounds the solver shows extract_meta_var agrees with the specification table of the property -- with the sigil `$` and with the "
+                 "2-byte and 4-byte expando characters the languages substitute for it --, parse_an_b with a reference reading of An+B, is_matched with `exists n >= 0: i = A*n+B`, and resolve_char "
+                 "with Python's slice index normalisation over the full i32 range. For every built-in language at once (symbolic language) the solver shows that the real per-language pipeline "
+                 "extract_meta_var(pre_process_pattern(s)) gives each of 24 spellings ($A $$A $_ $$_ $$$ $$$A $$$_ $_X ... $a $1 $ $$ $$$$A) the same, language-independent meaning, and that no "
+                 "language's expando character can occur in a meta-variable name."),
+        "note": ("Strings <= 5 (7, 9 thorough) bytes over alphabets covering every character class the code distinguishes. The language crate is compiled without its generated C grammars; "
+                 "whether a spelling lexes as one token in each of the 23 grammars is outside the claim. Symbolic spellings through pre_process_pattern (Vec<char> of symbolic element count) and "
+                 "Substring::compute (needs a String of symbolic length) run out of memory and are kept in the lab tier; the spellings of the per-language table are concrete."),
     },
 }
 
